@@ -133,6 +133,60 @@ def path_context(ctx, arg):
             ctx.violation(clause='context_scalars', vars=sv.concrete(m), schema=c06.schema_json(schema), detail='a scalar template variable differs from the Zerv variable', vkey='context|scalars')
 
 
+TEMPLATES = [('{{ semver }}', 'semver'), ('{{ pep440 }}', 'pep440'), ('{{ semver_obj.docker }}', 'docker'), ('v{{ semver_obj.base_part }}', 'semver_base'),
+             ('{{ pep440_obj.base_part }}', 'pep440_base'), ('{{ major }}.{{ minor }}.{{ patch }}', 'scalars')]
+
+
+def path_template(ctx, arg):
+    """the CLI's template branch end to end: OutputFormatter::format_output(zerv, fmt, prefix, Some(Template)) through
+    Template::render_string (Tera subset model, context built by the real from_zerv) against format_output without a
+    template on the same object: `{{ semver }}` / `{{ pep440 }}` print what --output-format prints, docker = semver with
+    `+` -> `-`, base parts are prefixes of the renderings"""
+    I, w = ctx.I, ctx.w
+    schema, cfg, (text, kind) = arg['schema'], arg.get('cfg', {}), arg['template']
+    core, extra, build = [[c06.comp_value(I, c) for c in part] for part in schema]
+    r = I.call('ZervSchema::new', [VecObj(core), VecObj(extra), VecObj(build)])
+    sv = c06.SymVars(w, I, c06.used_vars(schema), cfg)
+    zerv = Adt('Zerv', 0, [r.fields[0], sv.value(I)])
+    tpl = I.call('Template::<std::string::String>::new', [mkstring(text)])
+    try:
+        ro = I.call('OutputFormatter::format_output', [ValPtr(zerv), Str([ord(c) for c in 'semver']), none(), ValPtr(some(tpl))])
+        outs = {}
+        for fmt in ('semver', 'pep440'):
+            rf = I.call('OutputFormatter::format_output', [ValPtr(deep_copy(zerv)), Str([ord(c) for c in fmt]), none(), ValPtr(none())])
+            outs[fmt] = chars_of(rf.fields[0]) if rf.variant == 0 else None
+    except Panic as e:
+        ctx.violation(clause='panic', vars=sv.concrete(w.get_model()), detail=str(e), vkey='panic|template')
+        return
+    ctx.tag('template:' + kind)
+    if ro.variant != 0 or outs['semver'] is None or outs['pep440'] is None:
+        if kind == 'scalars' and ro.variant != 0:
+            ctx.tag('template_error')          # an absent scalar is null in the context: nothing to compare
+            return
+        ctx.violation(clause='template_output', template=text, vars=sv.concrete(w.get_model()), schema=c06.schema_json(schema), detail='format_output failed with template %r' % text, vkey='template|failed|' + kind)
+        return
+    out = chars_of(ro.fields[0])
+    m = None
+    if kind in ('semver', 'pep440'):
+        m = text_diff(w, out, outs[kind])
+    elif kind == 'docker':
+        exp = [c if isinstance(c, int) and c != 43 else (45 if isinstance(c, int) else z3.If(c == 43, 45, c)) for c in outs['semver']]
+        m = text_diff(w, out, exp)
+    elif kind == 'semver_base':
+        full = [118] + outs['semver']
+        m = w.get_model() if len(out) > len(full) else text_diff(w, out, full[:len(out)])
+    elif kind == 'pep440_base':
+        full = outs['pep440']
+        m = w.get_model() if len(out) > len(full) else text_diff(w, out, full[:len(out)])
+    else:
+        ctx.tag('same_output')
+        return
+    if m is not None:
+        ctx.violation(clause='template_output', template=text, vars=sv.concrete(m), schema=c06.schema_json(schema), detail='template %r prints %r; --output-format semver prints %r, pep440 %r' % (text, c06.mstr(m, out), c06.mstr(m, outs['semver']), c06.mstr(m, outs['pep440'])), vkey='template|' + kind)
+    else:
+        ctx.tag('same_output')
+
+
 # ------------------------------------------------------------------ functions
 def call_fn(I, name, entries):
     args = MapObj([(mkstring(k), v) for k, v in entries], 'HashMap')
